@@ -166,6 +166,21 @@ def sweep():
         for k in listed:
             if c.kind in keys and k not in fnames:
                 unknown.append(f"{c.kind}.{k}")
+    # ---- validation key table: QUERY_DOCUMENT_KEYS minus exactly the description keys
+    try:
+        from graphql.validation import validate as V
+        vkeys = getattr(V, "query_document_keys_to_validate", None)
+    except Exception:  # noqa: BLE001
+        vkeys = None
+    if vkeys is None:
+        out["vkeys_present"] = False
+        out["vkeys_with_description"], out["vkeys_dropped_other"], out["vkeys_extra"] = [], [], []
+    else:
+        out["vkeys_present"] = True
+        out["vkeys_with_description"] = sorted(k for k, ks in vkeys.items() if "description" in ks)
+        out["vkeys_dropped_other"] = sorted(f"{k}.{x}" for k, ks in keys.items() for x in ks
+                                            if x != "description" and x not in vkeys.get(k, ()))
+        out["vkeys_extra"] = sorted(f"{k}.{x}" for k, ks in vkeys.items() for x in ks if x not in keys.get(k, ()))
     out["keys_missing"] = sorted(set(missing))
     out["keys_unknown"] = sorted(set(unknown))
     return out
@@ -197,6 +212,10 @@ def render(t) -> str:
     L.append(f"Definition keys_missing_count : N := {len(t['keys_missing'])}.")
     L.append(f"(* listed keys that are not fields: {t['keys_unknown']} *)")
     L.append(f"Definition keys_unknown_count : N := {len(t['keys_unknown'])}.")
+    L.append(f"(* validation key table: kinds still listing 'description': {t['vkeys_with_description']}; other keys dropped: {t['vkeys_dropped_other']}; extra keys: {t['vkeys_extra']} *)")
+    L.append(f"Definition vkeys_with_description_count : N := {len(t['vkeys_with_description'])}.")
+    L.append(f"Definition vkeys_dropped_other_count : N := {len(t['vkeys_dropped_other'])}.")
+    L.append(f"Definition vkeys_extra_count : N := {len(t['vkeys_extra'])}.")
     L.append("")
     return "\n".join(L)
 
